@@ -105,6 +105,18 @@ def gen(rng, tier):
                 other = rng.choice([o for o in [NAI] + OTHER_OIDS if o != oid])
                 sans.append("on:%s:utf8:%s" % (other if rng.random() < 0.7 else oid, hx(rng.choice(expect))))
                 ns = len(sans)
+        # an IP term is about an address of ITS family: an iPAddress entry of the other family that shares its octets must not satisfy it
+        for t in terms:
+            if t.startswith(b"SubjectAltName:IP:") and rng.random() < 0.6:
+                import ipaddress
+                try:
+                    a = ipaddress.ip_address(t.split(b":", 2)[2].decode())
+                except ValueError:
+                    continue
+                look = (rng.choice([a.packed + bytes(12), bytes(12) + a.packed, bytes(10) + b"\xff\xff" + a.packed]) if a.version == 4
+                        else rng.choice([a.packed[:4], a.packed[-4:]]))
+                sans.append("ip:" + hx(look if rng.random() < 0.8 else a.packed))
+                ns = len(sans)
         toks.append("san=" + ("none" if ns is None else ("." if not sans else ",".join(sans))))
         cs.append(Case("vcert " + " ".join(toks), kind="vcert", nsan=ns or 0, nterms=nt, realm=int(realm is not None)))
     # which certificate name checks a server DISCOVERED by a lookup command is subject to: the flags of its printed block and of the
